@@ -393,21 +393,21 @@ theorem clauseOf_wf (s : Selector) (r : PCond ⊕ PCond) (h : clauseOf s = some 
       have h3 := hall _ hmem
       simp only at h3
       exact h3
-    cases hm : matcherClause field s.op s.val with
+    cases hm : matcherClause field s.op (selVal s) with
     | none => simp [hm] at h
     | some c =>
       simp [hm] at h
       subst h
-      have := matcherClause_wf field hf s.op s.val c hm
+      have := matcherClause_wf field hf s.op (selVal s) c hm
       cases inArr <;> simpa [PCond.wf] using this
   | none =>
     simp only [hp] at h
-    cases hm : matcherClause "val" s.op s.val with
+    cases hm : matcherClause "val" s.op (selVal s) with
     | none => simp [hm] at h
     | some c =>
       simp [hm] at h
       subst h
-      have := matcherClause_wf "val" rawE_val s.op s.val c hm
+      have := matcherClause_wf "val" rawE_val s.op (selVal s) c hm
       simp [PCond.wf, kwOK_eq, rawE_key, this]
 
 theorem plan_wf (table : String) (fromDate toDate : Bytes) : ∀ (ss : List Selector) (q : PQuery),
@@ -578,12 +578,12 @@ theorem clauseOf_skel (s1 s2 : Selector) (h : SameClass s1 s2) : (clauseOf s1).m
   cases pseudoOf s2.name with
   | some e =>
     obtain ⟨field, inArr⟩ := e
-    have hm := matcherClause_skel field s2.op s1.val s2.val
-    cases m1 : matcherClause field s2.op s1.val <;> cases m2 : matcherClause field s2.op s2.val <;>
+    have hm := matcherClause_skel field s2.op (selVal s1) (selVal s2)
+    cases m1 : matcherClause field s2.op (selVal s1) <;> cases m2 : matcherClause field s2.op (selVal s2) <;>
       simp_all [skelSum] <;> cases inArr <;> simp_all [PCond.skel]
   | none =>
-    have hm := matcherClause_skel "val" s2.op s1.val s2.val
-    cases m1 : matcherClause "val" s2.op s1.val <;> cases m2 : matcherClause "val" s2.op s2.val <;>
+    have hm := matcherClause_skel "val" s2.op (selVal s1) (selVal s2)
+    cases m1 : matcherClause "val" s2.op (selVal s1) <;> cases m2 : matcherClause "val" s2.op (selVal s2) <;>
       simp_all [skelSum, PCond.skel]
 
 def PQuery.skel (q : PQuery) : PQuery := { q with fromDate := [], toDate := [], globals := q.globals.map PCond.skel, kvs := q.kvs.map PCond.skel }
